@@ -271,8 +271,12 @@ def material_card(m):
         if isinstance(item, (list, tuple)):
             toks.append(T(raw(item[0])))
             toks.append(T((item[1], 'num')))
+        elif '=' in item:
+            # keyword entry such as nlib=70c
+            key, _, val = item.partition('=')
+            toks.append(T(kw(key), raw('='), raw(val)))
         else:
-            toks.append(T(raw(item)))  # keyword entry such as nlib=70c
+            toks.append(T(raw(item)))
     return toks
 
 
